@@ -159,23 +159,105 @@ def r4_folder_level(ctx):
                 r.anchor_missing(rx)
 
 
+SI = "sos_search::search::SearchIndex::"
+
+
+def _si_methods(ws):
+    return {root[len(SI):]: fn for root, fn in ws.fns.items()
+            if root.startswith(SI) and "::" not in root[len(SI):]}
+
+
+def _si_callee(t, methods):
+    c = t.get("resolved") or t.get("callee") or ""
+    if c.startswith(SI) and c[len(SI):] in methods:
+        return c[len(SI):]
+    return None
+
+
 def r5_counters(ctx):
+    """(a) commit / every removal entry point updates the statistics, looked
+    up through private helpers; (b) no public SearchIndex method can return
+    with a removed-but-not-vacuumed document: probly-search hides removed keys
+    until vacuum(), so a document re-added under the same key stays invisible."""
     ws = ctx.ws
-    r = ctx.rule("C20-R5", "index statistics move with documents",
-                 floor=2, kind="K3 pairing")
-    c = ws.fn("sos_search::search::SearchIndex::commit")
-    rm = ws.fn("sos_search::search::SearchIndex::remove")
-    if not c or not rm:
+    r = ctx.rule("C20-R5", "index statistics move with documents, and every removal is vacuumed before the method returns",
+                 floor=5, kind="K3 pairing over interprocedural summaries of SearchIndex methods")
+    methods = _si_methods(ws)
+    if "commit" not in methods or "remove" not in methods:
         r.anchor_missing("SearchIndex::commit / remove")
         return
-    for f, need in ((c, ["add", "insert"]), (rm, ["remove"])):
-        names = [cname(t) for _b, _i, t in f.calls()]
-        k = f.root + "|statistics"
-        stat = [t for _b, _i, t in f.calls() if re.search(r"(IndexStatistics|DocumentCount)", t.get("callee") or "")]
-        if stat:
-            r.ok(k, cfg.loc(f.main), "updates the statistics via %s" % sorted({cname(t) for t in stat}), work=len(names))
+
+    def reaches(name, rx, seen=None):
+        seen = seen if seen is not None else set()
+        if name in seen:
+            return False
+        seen.add(name)
+        for _b, _i, t in methods[name].calls():
+            if rx.search(t.get("callee") or ""):
+                return True
+            c = _si_callee(t, methods)
+            if c and reaches(c, rx, seen):
+                return True
+        return False
+    STAT = re.compile(r"(IndexStatistics|DocumentCount)")
+    for name in ("commit", "remove", "remove_vault", "remove_all", "remove_folder"):
+        if name not in methods:
+            continue
+        k = SI + name + "|statistics"
+        if reaches(name, STAT):
+            r.ok(k, cfg.loc(methods[name].main), "%s updates the document counters (directly or through a helper)" % name, work=1)
         else:
-            r.violation(k, cfg.loc(f.main), "%s no longer updates the document counters" % idioms.last_seg(f.root), work=len(names))
+            r.violation(k, cfg.loc(methods[name].main), "%s no longer updates the document counters" % name, work=1)
+    RM = re.compile(r"probly_search::index::Index::<.*>::remove_document$")
+    VAC = re.compile(r"probly_search::index::Index::<.*>::vacuum$")
+    memo = {}
+
+    def summary(name, stack=()):
+        """(may leave a removal pending at return, vacuums on every path)"""
+        if name in memo:
+            return memo[name]
+        if name in stack:
+            return (False, False)
+        fn = methods[name]
+        body = fn.main
+        live = cfg.live_blocks(body)
+        psites, vsites = [], []
+        for i, t in idioms.real_calls(body, live):
+            c = t.get("callee") or ""
+            if RM.search(c):
+                psites.append(i)
+            elif VAC.search(c):
+                vsites.append(i)
+            else:
+                h = _si_callee(t, methods)
+                if h:
+                    hp, hv = summary(h, stack + (name,))
+                    if hp:
+                        psites.append(i)
+                    if hv:
+                        vsites.append(i)
+        exits = [e.block for e in cfg.exits(body)] or [i for i in live if (body.blocks[i].get("term") or {}).get("k") == "return"]
+        pending = False
+        for ps in psites:
+            after = cfg.reach_after(body, ps, cut_blocks=[v for v in vsites if v != ps])
+            if any(e in after for e in exits):
+                pending = True
+        always_v = bool(vsites) and not any(e in cfg.reach(body, [0], cut_blocks=vsites) for e in exits)
+        memo[name] = (pending, always_v)
+        return memo[name]
+    n = 0
+    for name, fn in sorted(methods.items()):
+        if fn.meta.get("vis") != "Public" or not reaches(name, RM):
+            continue
+        n += 1
+        pending, _v = summary(name)
+        k = SI + name + "|vacuumed"
+        if pending:
+            r.violation(k, cfg.loc(fn.main), "%s can return after removing documents from the index without vacuum(): re-added documents with the same key stay invisible to queries and the next vacuum deletes their postings" % name, work=len(fn.main.blocks))
+        else:
+            r.ok(k, cfg.loc(fn.main), "every removal performed by %s is followed by vacuum() before it returns" % name, work=len(fn.main.blocks))
+    if n < 4:
+        r.anchor_missing("public SearchIndex methods that remove documents (found %d)" % n)
 
 
 # extra build configurations analysed in the thorough tier
@@ -188,7 +270,7 @@ def run(ctx):
         "create/write/remove call SearchIndex prepare/commit/remove, the final index operation only after the folder "
         "mutation succeeded; (R2) each secret arm of the merge replay calls the matching index operations; (R3) every "
         "caller of Folder::{create,update,delete}_secret is an indexed path or a tabled unindexed folder; (R4) folder "
-        "deletion and index rebuild call remove_folder / remove_all+add_folder; (R5) commit/remove update the counters. "
+        "deletion and index rebuild call remove_folder / remove_all+add_folder; (R5) commit and every removal entry point update the counters (through helpers), and no public SearchIndex method returns with a removed-but-not-vacuumed document. "
         "Analysed in the workspace configuration where feature `search` is on. Equality with a rebuilt index is not decided.")
     ctx.trust("probly-search index add/remove")
     r1_local_mutations(ctx)
